@@ -36,7 +36,7 @@ ASSUMPTIONS = [
 REQUIRED = {"expand.count_and_order": {"quick": 1500, "thorough": 100000}, "expand.row_scenario": {"quick": 3000, "thorough": 200000},
             "expand.template_unchanged": {"quick": 1500, "thorough": 100000}, "expand.rows_independent": {"quick": 800, "thorough": 50000},
             "modify.rebuilt": {"quick": 800, "thorough": 50000}, "builder.count": {"quick": 1500, "thorough": 100000}}
-REQUIRED_SEEN = {"background_steps_shape": ["mixed", "all_with_placeholder", "none_with_placeholder"], "outline_place": ["in_rule", "in_feature"], "examples_shape": ["section_without_table_before_rows"], "tag_placeholder_column": ["name_with_punctuation"], "schema": 7, "modification": ["add_row", "add_row_object", "add_column", "remove_column"]}
+REQUIRED_SEEN = {"entry_point": ["parse_scenario", "parse_feature"], "background_steps_shape": ["mixed", "all_with_placeholder", "none_with_placeholder"], "outline_place": ["in_rule", "in_feature"], "examples_shape": ["section_without_table_before_rows"], "tag_placeholder_column": ["name_with_punctuation"], "schema": 7, "modification": ["add_row", "add_row_object", "add_column", "remove_column"]}
 NSHARDS = {"quick": 16, "thorough": 16}
 
 
@@ -95,6 +95,12 @@ def gen_outline(rng):
                 # outline tags use) hold tag-safe values
                 row.append(rng.choice(TAGVALS) if (c == tagcol or c in ("row.id", "examples.index")) else rng.choice(VALUES + cols))
             rows.append(row)
+        if len(order) >= 2 and rng.random() < 0.12:
+            # a column heading that occurs twice (legal; the cell of the FIRST column with that heading fills the placeholder)
+            j = rng.randrange(1, len(order))
+            dup_of = rng.choice(order[:j])
+            if order[j] != tagcol and dup_of != tagcol and order[j] not in ("row.id", "examples.index") and dup_of not in ("row.id", "examples.index"):
+                order = order[:j] + [dup_of] + order[j + 1:]
         if rng.random() < 0.12:
             # an Examples section without any table (legal; it has no rows but it still is the ei-th section)
             order, rows = None, []
@@ -215,6 +221,22 @@ def one_case(mon, rng, sample=False):
     schema = rng.choice(SCHEMAS)
     f = parse_feature(text, filename="o.feature")
     o = f.run_items[idx].run_items[0] if in_rule else f.run_items[idx]
+    via_fragment = False
+    if not in_rule and idx == 0 and feature.get("background") is None and rng.random() < 0.3:
+        # the less used public entry point: the outline alone through behave.parser.parse_scenario(text)
+        from behave.parser import parse_scenario
+        from ..gen.render import render_fragment
+        text, lines_f = render_fragment("scenario", outline_abs)
+        try:
+            o = parse_scenario(text)
+        except Exception as ex:
+            mon.check("expand.count_and_order", False, lambda: dict(case={"text": text, "entry": "parse_scenario"}, error=repr(ex)))
+            return
+        via_fragment = True
+        lines = {("item", idx) + k: v for k, v in lines_f.items()}
+        mon.seen("entry_point", "parse_scenario")
+    else:
+        mon.seen("entry_point", "parse_feature")
     if schema is not None:
         o.annotation_schema = schema
     key = ("item", idx, "item", 0) if in_rule else ("item", idx)
@@ -274,14 +296,14 @@ def one_case(mon, rng, sample=False):
                       lambda: W(row=srow.name, got=got_bg, want=want_bg))
     # the flat lists of the feature: the scenarios in front of the outline, then one scenario per row (the outline itself
     # only on request)
-    flat = [x.name for x in f.walk_scenarios()]
-    flat_o = [x for x in f.walk_scenarios(with_outlines=True)]
+    flat = [x.name for x in f.walk_scenarios()] if not via_fragment else [w[0] for w in want]
+    flat_o = [x for x in f.walk_scenarios(with_outlines=True)] if not via_fragment else [o]
     n_before = idx
-    mon.check("expand.flat_scenario_list_of_the_feature", flat[n_before:] == [w[0] for w in want] and len(flat) == n_before + len(want)
+    mon.check("expand.flat_scenario_list_of_the_feature", via_fragment or flat[n_before:] == [w[0] for w in want] and len(flat) == n_before + len(want)
               and [x for x in flat_o if x is o] == [o] and [x.name for x in f.iter_scenarios()] == flat,
               lambda: W(outline_in_rule=in_rule, flat=flat, want=[w[0] for w in want]))
     for s in scen:
-        mon.check("expand.row_links", s.parent is o and s.feature is f and s.keyword == o.keyword and list(s.description) == list(o.description),
+        mon.check("expand.row_links", s.parent is o and (via_fragment or s.feature is f) and s.keyword == o.keyword and list(s.description) == list(o.description),
                   lambda: W(row=s.name, parent=repr(s.parent)))
     mon.check("expand.template_unchanged", snapshot_template(o) == before, lambda: W(before=before, after=snapshot_template(o)))
     mon.check("expand.stable", o.scenarios is scen or observed_rows(o.scenarios) == got, lambda: W(note="second access differs"))
